@@ -6,6 +6,7 @@ import (
 	"github.com/metrico/qryn/reader/logql/logql_transpiler_v2/shared"
 	"github.com/metrico/qryn/reader/prof/parser"
 	sql "github.com/metrico/qryn/reader/utils/sql_select"
+	"regexp"
 )
 
 type StreamSelectorPlanner struct {
@@ -13,6 +14,63 @@ type StreamSelectorPlanner struct {
 }
 
 func (s *StreamSelectorPlanner) Process(ctx *shared.PlannerContext) (sql.ISelect, error) {
+	// Selectors are Prometheus matchers: a series without the label reads as "". The index has no row to witness an
+	// absent label, so a selector on a stored label that accepts "" only excludes the series carrying a rejected value.
+	var indexed, absentOk []parser.Selector
+	for _, selector := range s.Selectors {
+		ok, err := acceptsAbsent(selector)
+		if err != nil {
+			return nil, err
+		}
+		if ok {
+			absentOk = append(absentOk, selector)
+		} else {
+			indexed = append(indexed, selector)
+		}
+	}
+	res, err := (&StreamSelectorPlanner{Selectors: indexed}).processIndexed(ctx)
+	if err != nil {
+		return nil, err
+	}
+	for _, selector := range absentOk {
+		inverse := parser.Selector{Name: selector.Name, Val: selector.Val,
+			Op: map[string]string{"=": "!=", "!=": "=", "=~": "!~", "!~": "=~"}[selector.Op]}
+		rejected, err := (&StreamSelectorPlanner{Selectors: []parser.Selector{inverse}}).processIndexed(ctx)
+		if err != nil {
+			return nil, err
+		}
+		res.AndWhere(sql.Eq(sql.NewIn(sql.NewRawObject("fingerprint"), rejected), sql.NewIntVal(0)))
+	}
+	return res, nil
+}
+
+// acceptsAbsent: the selector addresses a stored label (not a pseudo label) and matches the empty string
+func acceptsAbsent(selector parser.Selector) (bool, error) {
+	switch selector.Name {
+	case "__name__", "__period_type__", "__period_unit__", "__sample_type__", "__sample_unit__", "__profile_type__",
+		"service_name":
+		return false, nil
+	}
+	val, err := selector.Val.Unquote()
+	if err != nil {
+		return false, err
+	}
+	switch selector.Op {
+	case "=":
+		return val == "", nil
+	case "!=":
+		return val != "", nil
+	case "=~", "!~":
+		re, err := regexp.Compile("^(?:" + val + ")$")
+		if err != nil {
+			return false, err
+		}
+		return re.MatchString("") == (selector.Op == "=~"), nil
+	}
+	return false, fmt.Errorf("unknown operator: %s", selector.Op)
+}
+
+func (s *StreamSelectorPlanner) processIndexed(ctx *shared.PlannerContext) (sql.ISelect, error) {
 	matchers, err := s.getMatchers()
 	if err != nil {
 		return nil, err
